@@ -481,7 +481,7 @@ class Summaries:
                 if isinstance(s, StrV) and s.known is not None:
                     if first:
                         if len(s.known) > 0:
-                            out.append((st, CharV(s.known[0])))
+                            out.append((st, CharV(s.known[0], prov=('char-of', s.key(), 'first'))))
                         else:
                             out.append((st, None))
                         return apply_ops(ctx, it, out)
@@ -2689,8 +2689,17 @@ class Summaries:
             ch = deref(ctx, ctx.args[0])
             key = ('width', ch.key() if isinstance(ch, V) else None)
             st = ctx.st
+            for h in eng.hooks:
+                h('width', st, ctx.fr, ctx.bi, ch)
             w = eng.num_opaque(st, 'usize', 0, 2, key, 'width(%r)' % (ch,))
             return EnumV(ctx.ret_ty, {0, 1}, {1: StructV('Some', {'0': w})})
+
+        @regx(r'^<str as unicode_width::UnicodeWidthStr>::width(_cjk)?$')
+        def _(ctx):
+            sv = sval(ctx, ctx.args[0])
+            for h in eng.hooks:
+                h('strwidth', ctx.st, ctx.fr, ctx.bi, sv)
+            return eng.num_opaque(ctx.st, 'usize', 0, 2**40, ('strwidth', sv.key() if isinstance(sv, V) else None), 'width(%r)' % (sv,))
 
         @reg('unicode_normalization::char::is_combining_mark')
         def _(ctx):
